@@ -1822,21 +1822,78 @@ func runCase(run *hx.Run, caseID string, img *builtImage, cfg bufconfig.Generate
 		removed := map[int]bool{}
 		for _, k := range fdiff.removed {
 			removed[k] = true
+		}
+		// what the rewritten jstype options sit next to (coverage of the sweep clause)
+		for k := range fdiff.jsChanged {
+			root := cat(fields[k].path, 8)
+			one, deep, hasLoc := 0, 0, false
+			for _, l := range locs {
+				if len(l.Path) > len(root) && pathEq(l.Path[:len(root)], root) {
+					switch {
+					case pathEq(l.Path, cat(root, 6)):
+						hasLoc = true
+					case len(l.Path) == len(root)+1:
+						one++
+					default:
+						deep++
+					}
+				}
+			}
+			if hasLoc {
+				cls := "none"
+				switch {
+				case one > 0 && deep > 0:
+					cls = "one-element-and-deeper"
+				case one > 0:
+					cls = "one-element-only"
+				case deep > 0:
+					cls = "deeper-only"
+				}
+				run.Count("sweep-oracle:jstype-location-removed:sibling-locations=" + cls)
+			}
+		}
+		for _, k := range fdiff.removed {
 			if _, ok := expect[k]; !ok {
 				class := "sweep-removed-unrelated-location"
 				l := locs[k]
+				what := fmt.Sprintf("file %s: source-info location %d %v removed although no rewritten option lives there", f.Path(), k, l.Path)
 				if n := len(l.Path); n > 0 && l.Path[n-1] == 8 && n > 1 {
+					var surviving [][]int32
 					hasDesc := false
-					for _, l2 := range locs {
+					for k2, l2 := range locs {
 						if len(l2.Path) > n && pathEq(l2.Path[:n], l.Path) {
 							hasDesc = true
+							if !removed[k2] {
+								surviving = append(surviving, l2.Path)
+							}
 						}
 					}
 					if !hasDesc {
 						class = "sweep-removed-childless-field-options-location"
+					} else if len(surviving) > 0 {
+						// the documented parent rule: a FieldOptions location goes only when
+						// nothing inside it is left
+						class = "sweep-removed-parent-of-surviving-option"
+						what = fmt.Sprintf("file %s: FieldOptions location %d %v removed although option locations %v inside it survive", f.Path(), k, l.Path, surviving)
 					}
 				}
-				fail(class, fmt.Sprintf("file %s: source-info location %d %v removed although no rewritten option lives there", f.Path(), k, l.Path))
+				fail(class, what)
+			}
+		}
+		// every other location survives: count the deep ones (two or more elements below an
+		// options message) that were checked as survivors
+		for k, l := range locs {
+			if removed[k] {
+				continue
+			}
+			for n := 1; n+2 < len(l.Path); n++ {
+				if l.Path[n] == 8 && len(l.Path)-n-1 >= 2 && n >= 2 {
+					run.Count("sweep-oracle:deep-field-option-location-survived")
+					break
+				}
+			}
+			if len(l.Path) >= 3 && l.Path[0] == 8 {
+				run.Count("sweep-oracle:deep-file-option-location-survived")
 			}
 		}
 		for k, why := range expect {
@@ -2083,4 +2140,5 @@ func main() {
 		}
 		runCase(run, strconv.Itoa(i), img, cfg, preserve, cfgKind)
 	}
+	runSweepFamily(run, root.Fork(1<<41))
 }
